@@ -8,6 +8,63 @@ namespace NV.C13
 
 open NV.Gen.C13
 
+/-- the lines passed to process_input inside a read (PORT_ASCII / PORT_BINARY) -/
+def inputsOf : List Ev → List (List Byte)
+  | [] => []
+  | .input l :: r => l :: inputsOf r
+  | _ :: r => inputsOf r
+
+theorem inputsOf_append (a b : List Ev) : inputsOf (a ++ b) = inputsOf a ++ inputsOf b := by
+  induction a with
+  | nil => rfl
+  | cons e r ih => cases e <;> simp [inputsOf, ih]
+
+/-! copy_chars never calls process_input -/
+theorem sbEnd_no_input {d : Dec} {r : CC} (h : sbEnd d = .ok r) : inputsOf r.cbs = [] := by
+  unfold sbEnd at h
+  split at h
+  · cases h
+  · dsimp only at h
+    repeat' split at h
+    all_goals first | (cases h; done) | (injection h with h2; subst h2; rfl)
+
+theorem ccByte_no_input {d : Dec} {b : Byte} {r : CC} (h : ccByte d b = .ok r) : inputsOf r.cbs = [] := by
+  unfold ccByte at h
+  repeat' split at h
+  · unfold ccData at h; (try dsimp only at h); repeat' split at h
+    all_goals first | (cases h; done) | (injection h with h2; subst h2; rfl)
+  · unfold ccSbIac at h; (try dsimp only at h); repeat' split at h
+    all_goals first | (cases h; done) | (injection h with h2; subst h2; rfl) | exact sbEnd_no_input h
+  · unfold ccIac at h; (try dsimp only at h); repeat' split at h
+    all_goals first | (cases h; done) | (injection h with h2; subst h2; rfl)
+  · unfold ccDo at h; (try dsimp only at h); repeat' split at h
+    all_goals first | (cases h; done) | (injection h with h2; subst h2; rfl)
+  · unfold ccWill at h; (try dsimp only at h); repeat' split at h
+    all_goals first | (cases h; done) | (injection h with h2; subst h2; rfl)
+  · unfold ccDont at h; (try dsimp only at h); repeat' split at h
+    all_goals first | (cases h; done) | (injection h with h2; subst h2; rfl)
+  · unfold ccWont at h; (try dsimp only at h); repeat' split at h
+    all_goals first | (cases h; done) | (injection h with h2; subst h2; rfl)
+  · unfold ccSb at h; (try dsimp only at h); repeat' split at h
+    all_goals first | (cases h; done) | (injection h with h2; subst h2; rfl)
+  · injection h with h2; subst h2; rfl
+
+theorem copyChars_no_input {d : Dec} {c : List Byte} {r : CC} (h : copyChars d c = .ok r) : inputsOf r.cbs = [] := by
+  induction c generalizing d r with
+  | nil => simp only [copyChars] at h; injection h with h; subst h; rfl
+  | cons b rest ih =>
+    simp only [copyChars] at h
+    cases h1 : ccByte d b with
+    | error e => rw [h1] at h; cases h
+    | ok r1 =>
+      rw [h1] at h; dsimp only at h
+      cases h2 : copyChars r1.d rest with
+      | error e => rw [h2] at h; cases h
+      | ok r2 =>
+        rw [h2] at h; dsimp only at h
+        injection h with h; subst h
+        show inputsOf (r1.cbs ++ r2.cbs) = []
+        rw [inputsOf_append, ccByte_no_input h1, ih h2]; rfl
 /-- the specification's line splitter on tokens is `cmdsOf` on the rendered text -/
 theorem linesTok_eq_cmdsOf (cur : List Byte) (ts : List Tok) : linesTok cur ts = cmdsOf cur (renderToks ts) := by
   induction ts generalizing cur with
@@ -106,7 +163,7 @@ theorem computeSpace_keep {s : S} (h : Inv s) (hp : s.port = .telnet) (hk : keep
     the bytes taken from the socket; nothing else of the pending text changes -/
 theorem telnet_read_exact {s : S} (h : Inv s) (hp : s.port = .telnet) (hns : s.dec.fl.single = false)
     (hk : keepsPending (s.tend - s.tstart) = true) :
-    ∃ s' evs, getUserData s = .ok (s', evs) ∧ Inv s' ∧ s'.port = .telnet ∧
+    ∃ s' evs, getUserData s = .ok (s', evs) ∧ Inv s' ∧ s'.port = .telnet ∧ inputsOf evs = [] ∧
       ((s.sock = [] ∧ pend s' = pend s ∧ s'.dec = s.dec ∧ s'.sock = []) ∨
        (∃ n r, 0 < n ∧ s.sock ≠ [] ∧ copyChars s.dec (s.sock.take n) = .ok r ∧ ChunkOK s.dec (s.sock.take n) r ∧
           pend s' = pend s ++ r.out ∧ s'.sock = s.sock.drop n ∧
@@ -119,7 +176,7 @@ theorem telnet_read_exact {s : S} (h : Inv s) (hp : s.port = .telnet) (hns : s.d
   split
   · rename_i hempty
     have he : s1.sock = [] := by simpa using hempty
-    refine ⟨_, _, rfl, ok.inv, hp1, Or.inl ⟨by rw [← ok.sock]; exact he, hpend, ok.dec, he⟩⟩
+    refine ⟨_, _, rfl, ok.inv, hp1, rfl, Or.inl ⟨by rw [← ok.sock]; exact he, hpend, ok.dec, he⟩⟩
   · rename_i hne
     have hne1 : s1.sock ≠ [] := by simpa using hne
     have htn : (s1.sock.take sp) ≠ [] := by
@@ -159,7 +216,9 @@ theorem telnet_read_exact {s : S} (h : Inv s) (hp : s.port = .telnet) (hns : s.d
       rw [slice_write_outside (Nat.le_refl _) (by rw [hl2]; omega), slice_write_append hse1 hw1, ← hpend]
       rfl
     rw [setCmdFlag_exact (by dsimp only; rw [hl3, hl2]; omega) (by dsimp only; omega) (by dsimp only; exact hsingle)]
-    refine ⟨_, _, rfl, ⟨?_, ?_, ?_, decInv_fl ck.inv _⟩, rfl, Or.inr ⟨sp, r, ok.pos, ?_, ?_, ?_, ?_, ?_, ?_⟩⟩
+    refine ⟨_, _, rfl, ⟨?_, ?_, ?_, decInv_fl ck.inv _⟩, rfl,
+      (by rw [inputsOf_append, inputsOf_append, copyChars_no_input hr]; cases r.tx.isEmpty <;> rfl),
+      Or.inr ⟨sp, r, ok.pos, ?_, ?_, ?_, ?_, ?_, ?_⟩⟩
     · dsimp only; rw [hl3, hl2]; exact hl1
     · dsimp only; omega
     · dsimp only; omega
